@@ -237,6 +237,8 @@ func solveAll(items []*solveItem, dir string, timeoutS int, workers int, second 
 				tmo := timeoutS
 				if it.ob.Kind == "cover" {
 					tmo = 3
+				} else if it.short && tmo > 2 {
+					tmo = 2
 				}
 				r, all := race(it.query, dir, it.ob.Name, tmo, false, second && it.ob.Kind != "cover")
 				it.ob.Solver, it.ob.TimeMs, it.ob.Output = r.solver, r.ms, strings.TrimSpace(r.out)
@@ -284,4 +286,5 @@ type solveItem struct {
 	query  string
 	ground string
 	agree  int
+	short  bool
 }
